@@ -1,8 +1,11 @@
 (* Specification-side definitions for the locator / range theorems (C15). *)
 From StgV Require Export Model.Locator.
 
-(* offsets text that the offsets parser consumes completely (true of every parsed locator) *)
-Definition wf_loc (l : ploc) : Prop := offsets_full (l_offs l) = Some (l_offs l).
+(* Well-formed locators: the offsets text is consumed completely by the offsets parser, and
+   a name component is not "@" (a PatchName is validated on construction and "@" is not a
+   valid patch name).  True of every parsed locator (C15_parsed_wf). *)
+Definition wf_loc (l : ploc) : Prop :=
+  offsets_full (l_offs l) = Some (l_offs l) /\ l_id l <> IdName s_at.
 
 Definition wf_oloc (l : option ploc) : Prop :=
   match l with Some l => wf_loc l | None => True end.
